@@ -6,7 +6,7 @@
    right-hand side: a new failing structure, or a listed one that starts to pass, breaks the theorem.
    (no failing structure in this version) *)
 From Coq Require Import List Bool Init.Byte.
-From HL7 Require Import Lib.Str Model.Result Model.Ref Model.Groups.
+From HL7 Require Import Lib.Str Model.Result Model.Ref Model.Groups Proofs.GroupsFacts Proofs.GroupsMirror.
 From HL7 Require Gen.Tables_v2_1.
 Import ListNotations. Open Scope bs_scope.
 
@@ -16,4 +16,15 @@ Proof. vm_compute. reflexivity. Qed.
 (* the sweep is not vacuous: number of structures it covers / number of message structures *)
 Theorem C08_prescribed_domain_v2_1 :
   (Nat.eqb (length (filter (fun p => unique_places Gen.Tables_v2_1.tables (snd p)) (t_messages Gen.Tables_v2_1.tables))) 0) = false.
+Proof. vm_compute. reflexivity. Qed.
+
+(* table hypothesis of C08_sound for every message structure of this version: every group row is
+   written by name with an upper-case name, all the way down (nesting depth < 12) *)
+Theorem C08_tables_v2_1 :
+  forallb (fun p => tab_ok Gen.Tables_v2_1.tables 12 (snd p)) (t_messages Gen.Tables_v2_1.tables) = true.
+Proof. vm_compute. reflexivity. Qed.
+
+(* second table hypothesis (C08_unplaced): group names are pairwise distinct along every path *)
+Theorem C08_distinct_v2_1 :
+  forallb (fun p => names_distinct Gen.Tables_v2_1.tables 12 [] (snd p)) (t_messages Gen.Tables_v2_1.tables) = true.
 Proof. vm_compute. reflexivity. Qed.
